@@ -302,6 +302,8 @@ def run_case(ctx, case):
                                         constants=constants or None, verbosity=0)
         d2, _ = cropkit.compare_nest(direct, w, constants, kind)
         if d2:
+            for o, msg in bad[:2]:          # (what was found so far is reported before the harness error surfaces)
+                ctx.violation(case, msg, dict(sig, oracle=o))
             raise AssertionError("direct run itself differs from the reference: " + d2)
     except AssertionError:
         raise
